@@ -211,8 +211,9 @@ func (x *Exec) callStatic(fr *frame, st *State, fn *ssa.Function, args []Val, bi
 		prefix := fmt.Sprintf("%sinl:%s#%d/", fr.prefix, short, ord)
 		ns, res, err := x.execFunc(fn, args, bindings, st, prefix, fr.depth+1)
 		if err != nil {
-			if u, ok := err.(*Unsupported); ok && !forceInline && x.eng.inRepo(fn) == false {
-				_ = u
+			if u, ok := err.(*Unsupported); ok && !forceInline && (x.eng.inRepo(fn) == false || strings.Contains(u.Msg, "has neither invariant nor unroll")) {
+				// a callee that cannot be inlined (outside the repository, or with a loop nobody
+				// annotated - typically one a change introduced) is a call of unknown effect
 				x.vc.noteHavoc(full + " (not inlinable: " + u.Msg + ")")
 				return x.havocCall(st, fn.Signature, short), nil
 			}
